@@ -8,6 +8,7 @@ import (
 	"fmt"
 	"go/token"
 	"math"
+	"os"
 	"reflect"
 	"strconv"
 	"strings"
@@ -93,6 +94,9 @@ var scalarTypes = map[string]reflect.Type{
 	"chan":  reflect.TypeOf(make(chan int)),
 }
 
+// StdNamed: defined scalar types of the standard library, by kind (T.Name == "std").
+var StdNamed = map[string]reflect.Type{"int64": reflect.TypeOf(time.Duration(0)), "int": reflect.TypeOf(time.Month(0)), "uint32": reflect.TypeOf(os.FileMode(0))}
+
 // Scalars lists the scalar kind names usable as field types.
 var Scalars = []string{"string", "bool", "int", "int8", "int16", "int32", "int64", "uint", "uint8", "uint16", "uint32", "uint64", "float32", "float64"}
 
@@ -148,6 +152,11 @@ func Type(t T) reflect.Type {
 
 func typeLocked(t T) reflect.Type {
 	if st, ok := scalarTypes[t.K]; ok {
+		if t.Name == "std" {
+			if nt, ok := StdNamed[t.K]; ok {
+				return nt
+			}
+		}
 		if t.Name != "" { // the named (defined) variant of the scalar kind, where the library has one
 			if nt, ok := lib.NamedScalars[t.K]; ok {
 				return nt
